@@ -17,6 +17,7 @@ the implementation trace and reports through chk.finding / chk.broken / chk.coun
 import json
 import os
 import re
+import sys
 
 import vlib
 from vlib import cN, clist, cbool, chex
@@ -34,8 +35,12 @@ SITE_PLAIN = "conn.go prepareLegacyPacket / handleRecordContent (unprotected epo
 SIG_ALERT = {"monitor": "unprotected-fatal-alert-closes-established-connection", "version": "1.3"}
 SIG_HS = {"monitor": "unprotected-post-handshake-message-answered-with-fatal-alert", "version": "1.3"}
 SIG_ACK = {"monitor": "unprotected-ack-commits-key-update", "version": "1.3"}
+SITE_RECON = "conn.go reconstructSequenceNumber (16-bit record number) under WithReplayProtectionWindow > 32767"
+SIG_RECON = {"monitor": "in-window-record-dropped-beyond-half-sequence-range", "version": "1.3"}
 
 _cache = {}
+if hasattr(sys, "set_int_max_str_digits"):
+    sys.set_int_max_str_digits(0)       # replay-window bitmaps of tens of thousands of bits
 
 
 def env(chk, out):
@@ -43,7 +48,7 @@ def env(chk, out):
 
 
 def cnat(n):
-    return "%d%%nat" % n
+    return "%d%%nat" % n if n < 3000 else "(N.to_nat %d)" % n
 
 
 def copt(v):
@@ -189,22 +194,24 @@ def bitmap(bits):
 
 
 def pstate_parts(st):
-    wins = clist(["(%s, %d, %d)" % (cbool(w["m48"]), w["latest"], bitmap(w["bits"])) for w in st["wins"]])
+    wins = clist(["(%s, %d, %s)" % (cbool(w["m48"]), w["latest"], vlib.cNlist(w["bits"])) for w in st["wins"]])
     cur = None if st["cur"] < 0 else st["cur"]
     return st["epoch"], cur, sorted(st["old"]), wins, vlib.cNlist(st["high"])
 
 
 def pstate_term(st):
     ep, cur, old, wins, high = pstate_parts(st)
-    return "(%d, %s, %s, %s, %s, %s)" % (ep, copt(cur), vlib.cNlist(old), wins, high, cnat(len(st["queue"])))
+    return "(%d, %s, %s, %s, %s, %s, %s)" % (ep, copt(cur), vlib.cNlist(old), wins, high, cnat(len(st["queue"])),
+                                             cnat(len(st.get("early", []))))
 
 
 def init_term(c):
     st = c["init"]
     ep, cur, old, wins, high = pstate_parts(st)
-    return "(mk_state %s %d %s %s %s %s %s %s %s %s %s)" % (
+    return "(mk_state %s %d %s %s %s %s %s %s %s %s %s %s)" % (
         cnat(c["w"]), ep, copt(cur), vlib.cNlist(old), wins, high, clist([chex(q) for q in st["queue"]]),
-        chex(st["cid"]), cbool(st["cidneg"]), cbool(st.get("rrc", False)), cbool(st.get("estab", False)))
+        chex(st["cid"]), cbool(st["cidneg"]), cbool(st.get("rrc", False)), cbool(st.get("estab", False)),
+        clist([chex(q) for q in st.get("early", [])]))
 
 
 def op_term(o):
@@ -330,7 +337,7 @@ def prev_state(c, i):
 
 
 def same_except_queue(a, b):
-    return all(a[k] == b[k] for k in ("epoch", "cur", "old", "wins", "high", "closed", "cid", "cidneg", "rrc", "estab")) and \
+    return all(a[k] == b[k] for k in ("epoch", "cur", "old", "wins", "high", "closed", "cid", "cidneg", "rrc", "estab", "early")) and \
         b["queue"][:len(a["queue"])] == a["queue"] and len(b["queue"]) <= 100
 
 
@@ -345,6 +352,29 @@ def monitor_c06(c):
             seen[p] = i
         if s["tag"] == "craft:early-next-gen" and s["obs"]["delivered"]:
             return i, "record of a generation not yet authorised (epoch above the remote epoch) delivered"
+    if c["scen"].startswith("early/"):
+        # application records that overtook the client's Finished: the handshake completes and Read returns
+        # each of them exactly once
+        if c.get("note"):
+            return len(c["steps"]) - 1, "application records ahead of the client's Finished: %s" % c["note"]
+        for i, s in enumerate(c["steps"]):
+            if s["tag"] == "craft:early-app":
+                want = c["written"][s["pl"]]
+                n = sum(st["obs"]["delivered"].count(want) for st in c["steps"])
+                if n != 1:
+                    return i, "application record that overtook the client's Finished delivered %d times" % n
+    return None
+
+
+def monitor_bigwindow(c):
+    """K-C06-2: (index, inside_window, delivered) of the late record in a bigwindow scenario"""
+    m = re.match(r"bigwindow/w(\d+)/behind(\d+)", c["scen"])
+    if not m:
+        return None
+    w, behind = int(m.group(1)), int(m.group(2))
+    for i, s in enumerate(c["steps"]):
+        if s["tag"] == "late-in-window":
+            return i, behind < w, bool(s["obs"]["delivered"]), w, behind
     return None
 
 
@@ -381,6 +411,24 @@ def run_e2e(chk, prop):
                         {"how": "establish `variant`, run the scenario, deliver steps[*].ops[0].hex in order to `side`",
                          "case": shrink(c, i)})
             break
+    if prop == "C06":
+        for c in cases:
+            r = monitor_bigwindow(c)
+            if r and r[1] and not r[2]:
+                i, _, _, w, behind = r
+                replay = {"how": "DTLS 1.3, WithReplayProtectionWindow(%d); hold one application record, let the newest "
+                                 "record number of its epoch move %d ahead, deliver the held record" % (w, behind),
+                          "note": c.get("note"), "case": shrink(c, i)}
+                if behind >= 32767:
+                    chk.finding(SITE_RECON, SIG_RECON,
+                                "DTLS 1.3 with replay window %d: a genuine record %d behind the newest one - inside the "
+                                "window, never seen - is dropped: its 16-bit wire number is rebuilt 65536 too high and "
+                                "the record does not open [%s]" % (w, behind, c["variant"]), replay)
+                else:
+                    found = True
+                    chk.finding(SITE_RX, {"monitor": "in-window record dropped", "version": "1.3"},
+                                "genuine record %d behind the newest (window %d) not delivered [%s]" % (behind, w, c["variant"]),
+                                replay)
     if prop == "C05":
         pa = plain_alert_steps(cases)
         if pa:
